@@ -21,7 +21,7 @@ sys.setrecursionlimit(20000)
 def main():
     ap = argparse.ArgumentParser()
     ap.add_argument("prop", choices=["C06", "C07", "C12", "C15", "C16", "C01",
-                                     "C13", "C14", "C07S", "C02S", "C01S", "C08S", "C10S", "C17", "C18", "C04S", "C05S"])
+                                     "C13", "C14", "C06S", "C07S", "C02S", "C01S", "C08S", "C10S", "C17", "C18", "C04S", "C05S"])
     ap.add_argument("--tier", choices=["quick", "thorough"], default="quick")
     ap.add_argument("--out", default=None)
     ap.add_argument("--layouts", default=None, help="comma separated subset of layouts (C16/C01/C14)")
@@ -60,6 +60,9 @@ def main():
     elif args.prop == "C18":
         import c18
         res = c18.run(args.tier, args.only.split(",") if args.only else None)
+    elif args.prop == "C06S":
+        import c06s
+        res = c06s.run(args.tier)
     elif args.prop == "C07S":
         import c07s
         res = c07s.run(args.tier)
